@@ -32,15 +32,17 @@ def document():
               M.event('Release', 'in', 'void', [f('q', 'T', 'inout')]),
               M.event('Idle', 'in'), M.event('Fail', 'out', 'void', [f('e', 'T', 'in')]), M.event('Ok', 'out')]
     evs_mc0 = [M.event('Claim', 'in', 'Result'), M.event('Release', 'in')]
-    itfs = {'IEmpty': [], 'IPlain': evs_plain, 'IRich': evs_rich, 'IMc': evs_mc, 'IMc0': evs_mc0,
+    evs_mcx = [M.event('Claim', 'in', 'T'), M.event('Release', 'in'), M.event('Work', 'in', 'Level'),
+               M.event('Other', 'in', 'Sub.Result')]
+    itfs = {'IEmpty': [], 'IPlain': evs_plain, 'IRich': evs_rich, 'IMc': evs_mc, 'IMc0': evs_mc0, 'IMcx': evs_mcx,
             'IOut': [M.event('Only', 'out', 'void', [f('p', 'T', 'in')])]}
     ports = []
     for n in itfs:
         ports.append(M.port('p' + n[1:], 'My.' + n, 'provides'))
         ports.append(M.port('r' + n[1:], 'My.' + n, 'requires'))
     doc = M.root([
-        M.namespace('My', [M.extern('T', 'int'), M.enum('Result', ['Ok', 'Busy']),
-                           M.namespace('Sub', [M.extern('U', 'std::string')])] +
+        M.namespace('My', [M.extern('T', 'int'), M.enum('Result', ['Ok', 'Busy']), M.subint('Level', 0, 3),
+                           M.namespace('Sub', [M.extern('U', 'std::string'), M.enum('Result', ['Fine'])])] +
                     [M.interface(n, evs) for n, evs in itfs.items()] +
                     [M.component('Comp', ports)]),
         M.namespace('Other', [M.extern('T', 'decoy_t'), M.namespace('Sub', [M.extern('U', 'decoy_u')])])])
@@ -57,7 +59,7 @@ def world():
 
 def fixture(itf):
     evs = {e.name: e for e in itf.events.elements}
-    if 'Claim' not in evs:
+    if 'Claim' not in evs or itf.name.value.items[-1] == 'IMcx':
         return None
     return C.MultiClientPortCfgFixture(claim_event=evs['Claim'], claim_granting_reply=ns_ids_t('My.Result.Ok'),
                                        release_event=evs['Release'])
@@ -150,6 +152,25 @@ def check_one(inp):
             else:
                 diff(origin.name, S.facilities_check_view(P.create_facilities_check_fn(scope, origin), scope),
                      S.facilities_check_expectation(scope, origin))
+    elif fn == 'check_multiclient_cfg':
+        from dznpy.adv_shell.port_selection import MultiClientPortCfg
+        _f, _c, itf_of = world()
+        names = ['Claim', 'Release', 'Work', 'Other', 'Idle', 'Fail', 'Nope']
+        for iname, cand, claim, reply, release in itertools.product(
+                ['IMc', 'IMc0', 'IMcx', 'IEmpty'], ['api', 'other'], names, ['Ok', 'Busy', 'Fine', 'Nope'],
+                ['Release', 'Claim', 'Idle', 'Nope']):
+            label = f'{iname}/{cand}/{claim}/{reply}/{release}'
+            if only is not None and only != label:
+                continue
+            itf = itf_of[iname]
+            for cfg in (MultiClientPortCfg('api', claim, ns_ids_t(reply), release), None):
+                outs = []
+                for f in (P.check_multiclient_cfg, S.multiclient_fixture):
+                    try:
+                        outs.append(('return', f(cfg, cand, itf, fct)))
+                    except Exception as e:  # noqa
+                        outs.append(('raise', type(e).__name__))
+                diff(label + ('' if cfg else '/no-settings'), outs[0], outs[1])
     elif fn == 'create_final_construct_fn':
         prov = [(l, p) for l, p in ports.items() if p.dzn_port_itf.port.direction == ast.PortDirection.PROVIDES]
         reqs = [(l, p) for l, p in ports.items() if p.dzn_port_itf.port.direction == ast.PortDirection.REQUIRES]
